@@ -360,7 +360,7 @@ func (vc *VC) assumeRefsValid(name string, comp Term, next Term, global bool) {
 	case 2:
 		f = fmt.Sprintf("(forall ((r Int) (k Int)) (! (=> (and (< 0 (ys.root r)) (< (ys.root r) %s)) (< (select (select %s r) k) %s)) :pattern ((select (select %s r) k))))", next, comp, next, comp)
 	default:
-		if vc.compSort[name] == "(Array Int ys.Slice)" {
+		if vc.compSort[name] == "(Array Int ys.Slice)" && vc.entryObjectsExist() {
 			// a slice held in a field of an object that exists refers to an array that exists
 			f = fmt.Sprintf("(forall ((r Int)) (! (=> (and (< 0 (ys.root r)) (< (ys.root r) %s)) (< (ys.arr (select %s r)) %s)) :pattern ((select %s r))))", next, comp, next, comp)
 			break
